@@ -5,12 +5,13 @@ From Coq Require Import String.
 
 Record eobs : Type := {
   x_sends : list (nat * list omsg); x_deliv : list (nat * Z * Z); x_unexp : nat;
-  x_closed : list nat; x_dials : nat; x_notroutable : nat;
+  x_closed : list nat; x_dials : nat; x_notroutable : nat; x_answered : nat;
   x_peers : list (string * Z * Z * Z * Z);
   x_conns : list (Z * bool * Z * string * string * list Z * list Z * bool * bool);
   x_half : list Z; x_sockpeers : list Z;
   x_peer_waiting : list (string * list (Z * Z)); x_app_waiting : list (Z * Z); x_origin_waiting : list (Z * Z);
-  x_sent_answers : list (string * list Z); x_ready : list bool; x_stopping : bool
+  x_sent_answers : list (string * list Z); x_ready : list bool; x_stopping : bool;
+  x_answer_waiting : list (list Z)
 }.
 
 Fixpoint insert_by {A} (le : A -> A -> bool) (x : A) (l : list A) : list A :=
@@ -81,7 +82,9 @@ Definition diff_code (n : node) (outs : list output) (x : eobs) : Z :=
   + bit (list_eqb (fun a b => String.eqb (fst a) (fst b) && list_eqb Z.eqb (snd a) (snd b))
                   (sort_by (fun a b => str_le (fst a) (fst b)) (n_sent_answers n)) (x_sent_answers x)) 13
   + bit (list_eqb Bool.eqb (List.map a_ready (n_apps n)) (x_ready x)) 14
-  + bit (Bool.eqb (n_stopping n) (x_stopping x)) 15.
+  + bit (Bool.eqb (n_stopping n) (x_stopping x)) 15
+  + bit (list_eqb (list_eqb Z.eqb) (List.map (fun a => sortz (List.map fst (a_waiting a))) (n_apps n)) (x_answer_waiting x)) 16
+  + bit (Nat.eqb (count_of (fun o => match o with OAnswerTo _ _ => true | _ => false end) outs) (x_answered x)) 17.
 
 (* run a scenario, comparing after EVERY event; returns index * 100000 + code of each disagreement
    (the model is re-synchronised on nothing: it runs on from its own state) *)
